@@ -95,8 +95,19 @@ def _ops_other():
         "effect_cmt": lambda m: pm.add_effect_compartment(m, "linear"),
         "allometry": lambda m: pm.add_allometry(m, allometric_variable="WGT", reference_value=3.5),
         "iov": lambda m: pm.add_iov(m, "FA1", list_of_parameters=[m.random_variables.iiv.names[0]]),
+        "iie": lambda m: pm.update_initial_individual_estimates(m, individual_estimates_table(m)),
     }
     return ops
+
+
+def individual_estimates_table(m, offset=0.0):
+    """a table of individual estimates for every eta of the model (deterministic values)"""
+    import pandas as pd
+
+    ids = list(dict.fromkeys(m.dataset[m.datainfo.id_column.name]))
+    etas = list(m.random_variables.etas.names)
+    data = {e: [round(0.05 * (i + 1) * (1 if j % 2 == 0 else -1) + offset, 6) for i in range(len(ids))] for j, e in enumerate(etas)}
+    return pd.DataFrame(data, index=pd.Index(ids, name=m.datainfo.id_column.name))
 
 
 def _first_param_without_iiv(m):
